@@ -205,7 +205,9 @@ def oracle(ctx):
     # the run exits 1, an error names the file, no service is generated for it, and the valid unit is generated
     BREAK = [('unknown key in the own section', lambda ty, t: t + 'Bogus=1\n'), ('unknown key in [Quadlet]', lambda ty, t: t + '[Quadlet]\nBogus=1\n'),
              ('unterminated header', lambda ty, t: '[Oops\n' + t), ('line without =', lambda ty, t: t + 'NoEqualsSign\n'),
-             ('key before any section', lambda ty, t: 'K=1\n' + t), ('invalid escape in a value', lambda ty, t: t + '[Unit]\nDescription=\\q\n')]
+             ('key before any section', lambda ty, t: 'K=1\n' + t), ('invalid escape in a value', lambda ty, t: t + '[Unit]\nDescription=\\q\n'),
+             ('NUL byte in a value of the own section', lambda ty, t: t + 'PodmanArgs=a\x00b\n'), ('NUL byte in a value of [Quadlet]', lambda ty, t: t + '[Quadlet]\nDefaultDependencies=n\x00o\n'),
+             ('NUL byte in a value of [Unit]', lambda ty, t: t + '[Unit]\nDescription=a\x00b\n')]
     singles = []
     for ty in G.TYPES:
         good = '[' + G.SEC[ty] + ']\n' + ''.join(b + '\n' for b in G.BASE[ty])
